@@ -732,6 +732,6 @@ func c15Gen(rt *rapid.T) c15Case {
 }
 
 func TestVerif_C15_converge(t *testing.T) {
-	kit.Run(t, "C15", "converge", kit.Opts{Quick: 10000, Thorough: 400000}, c15Gen,
+	kit.Run(t, "C15", "converge", kit.Opts{Quick: 10000, Thorough: 1000000}, c15Gen,
 		func(c c15Case) kit.Verdict { return c15Interp(t, c) })
 }
